@@ -18,10 +18,11 @@
      typing judgement and the integer-range predicate are the Coq definitions of Spec/; float(text) never fails on a grammatical number.
      C03_complete_filter_free / C03_exact_filter_free - for queries without filters the headline in full, relative to the spelling relation of
                               Proofs/LexSpell.v: every spelling of every derivable token sequence compiles to the query derived, and nothing else does;
-     C03_complete_spelled   - the same for queries WITH filters, number literals without exponent part (Proofs/LexCompleteF.v);
-   What remains unproved: number spellings with an exponent part (1e3, 1.5E-2) in the lexer half; and that EVERY string of the ABNF that is valid is a
-   spelling in the sense of Proofs/LexSpell.v - a statement about two grammars that no longer involves the model of the library (the converse inclusion is
-   C04_sound).  The check renders every generated valid query in every lexical form, exponents included, and requires it to compile to the generating structure. *)
+     C03_complete_spelled / C03_exact_spelled - the same for ALL queries, filters included, every number spelling (fraction, exponent) included
+                              (Proofs/LexCompleteF.v): compile() accepts exactly the spellings of derivable token sequences, and returns the query derived;
+   What remains unproved: that EVERY string of the ABNF that is valid is a spelling in the sense of Proofs/LexSpell.v - a statement about two grammars
+   that no longer involves the model of the library (the converse inclusion is C04_sound).  The check renders every generated valid query in every
+   lexical form and requires it to compile to the generating structure. *)
 From JP Require Import Base.Json Spec.Abnf Spec.Rfc9535Grammar Model.PyFloat.
 
 Theorem C03_oracle_sound_partial : forall s, in_rfc s = true -> rfc_query s.
@@ -110,28 +111,30 @@ Qed.
 
 (* ---- every lexical variant, for every query ----
    The same for queries WITH filters (Proofs/LexCompleteF.v): operators and keywords with any blanks around them, parentheses anywhere the grammar allows,
-   nested filters and function calls (the lexer's three stacks are threaded through the induction), both quote styles, any escape form.  One restriction:
-   number literals are a sign, digits and an optional fraction (plain t); spellings with an exponent part stay with the correspondence. *)
+   nested filters and function calls (the lexer's three stacks are threaded through the induction), both quote styles, any escape form, every number
+   spelling of the two token patterns (sign, digits, optional fraction, optional exponent with or without sign). *)
 From JP Require Import Proofs.LexCompleteF.
-Theorem C03_complete_spelled : forall cfg q t z a', QT cfg q t -> plain t -> forallb is_scalar z = true -> RunT a0 t z a' ->
+Theorem C03_complete_spelled : forall cfg q t z a', QT cfg q t -> forallb is_scalar z = true -> RunT a0 t z a' ->
   m_compile cfg (36%N :: z) = Ok q.
 Proof. exact spelled_compiles. Qed.
 Print Assumptions C03_complete_spelled.
 
-(* the hypotheses are satisfiable:  $[ ?@ .a>= 1.5 &&!( count( @.* ) ==-2 )|| $['b'] != "x" ]  with count() registered *)
+(* and nothing else compiles: acceptance is EXACTLY being a spelling of a derivable token sequence, the result exactly the query derived *)
+Theorem C03_exact_spelled : forall cfg q z, forallb is_scalar z = true ->
+  ((exists t a', QT cfg q t /\ RunT a0 t z a') <-> m_compile cfg (36%N :: z) = Ok q).
+Proof. exact compile_iff_spelled. Qed.
+Print Assumptions C03_exact_spelled.
+
+(* the hypotheses are satisfiable:  $[ ?@ .a>= 1.5e-3 &&!( count( @.* ) ==-2E+1 )|| $['b'] != "x" || @.c < 7e-2 ]  with count() registered *)
 Example C03_spelled_nonvacuous :
   let rg := [([99; 111; 117; 110; 116]%N, {| f_args := [TNodes]; f_ret := TValue; f_impl := FCount |})] in
   let cfg := {| min_idx := -9007199254740991; max_idx := 9007199254740991; max_depth := 100; reg := rg; rx := fun _ _ _ => false |} in
-  let z := [91;32;63;64;32;46;97;62;61;32;49;46;53;32;38;38;33;40;32;99;111;117;110;116;40;32;64;46;42;32;41;32;61;61;45;50;32;41;124;124;32;36;91;39;98;39;93;32;33;61;32;34;120;34;32;93]%N in
-  exists q t a', QT cfg q t /\ plain t /\ forallb is_scalar z = true /\ RunT a0 t z a' /\ m_compile cfg (36%N :: z) = Ok q.
+  let z := [91;32;63;64;32;46;97;62;61;32;49;46;53;101;45;51;32;38;38;33;40;32;99;111;117;110;116;40;32;64;46;42;32;41;32;61;61;45;50;69;43;49;32;41;124;124;32;36;91;39;98;39;93;32;33;61;32;34;120;34;32;124;124;32;64;46;99;32;60;32;55;101;45;50;32;93]%N in
+  exists q t a', QT cfg q t /\ forallb is_scalar z = true /\ RunT a0 t z a' /\ m_compile cfg (36%N :: z) = Ok q.
 Proof.
   intros rg cfg z. destruct (m_compile cfg (36%N :: z)) as [q| | |] eqn:E; try (vm_compute in E; discriminate E).
-  destruct (compiles_spelled_tok cfg _ q E) as (root & t & e & z' & a' & Htok & Ez & HQ & HR). inversion Ez; subst z'.
-  exists q, t, a'. split; [exact HQ|]. split; [|split; [vm_compute; reflexivity | split; [exact HR | reflexivity]]].
-  (* t is the token list the lexer computed, minus ROOT and EOF: plain by computation *)
-  apply plainb_sound. vm_compute in Htok. inversion Htok as [[Er Et]].
-  match type of Et with ?L = _ => assert (EL : exists mid lst, L = mid ++ [lst] /\ forallb plain_tokb mid = true) by (exists (removelast L), (last L eof_token); split; vm_compute; reflexivity) end.
-  destruct EL as (mid & lst & EL & Hp). rewrite EL in Et. apply app_inj_tail in Et as [<- _]. exact Hp.
+  destruct (compiles_spelled cfg _ q E) as (t & z' & a' & Ez & HQ & HR). inversion Ez; subst z'.
+  exists q, t, a'. split; [exact HQ|]. split; [vm_compute; reflexivity | split; [exact HR | reflexivity]].
 Qed.
 
 Theorem C03_accepts_only_spellings : forall cfg q z, m_compile cfg (36%N :: z) = Ok q -> exists t a', QT cfg q t /\ RunT a0 t z a'.
